@@ -42,6 +42,8 @@ inductive MutKind where
   | manifest     -- manifest.json differs (bytes or a field edit)
   | archive      -- the encrypted archive differs
   | key          -- wrong or malformed key material
+  | garbage      -- manifest.json extended / prefixed by bytes that are not JSON white space (stray brace, NUL, text,
+                 -- a second document, a BOM): the whole file must be the manifest
   | semantic     -- a fragment re-encoded and re-hashed (manifest digest / sizes updated) so that an edge endpoint
                  -- exists in no node fragment of ITS graph, or a node id occurs twice in its graph
 deriving DecidableEq, Repr
@@ -65,6 +67,7 @@ def judgeLoad (k : MutKind) (o : LoadObs) : Option String :=
     | .fragment => some "fragment-mutation-accepted"      -- the digest binds every fragment byte
     | .archive => some "archive-mutation-accepted"        -- AEAD + header hash + framing bind every archive byte
     | .key => some "opened-with-wrong-key"
+    | .garbage => some "manifest-with-garbage-accepted"
     | .semantic => some "dangling-or-duplicate-accepted"   -- unreachable: such a graph cannot equal the original
 
 /-! ## (b)(c) unpack: what may be observed of the file system -/
@@ -115,6 +118,9 @@ def judgeUnpack (c : UnpackCase) (o : UnpackObs) : Option String :=
   else match explicitAccepted [] c.explicit with
     | none => some "hostile-entry-accepted"
     | some rels => if rels.all (fun r => o.created.contains r) then none else some "accepted-entry-misplaced"
+
+/-- JSON white space: what `json.Unmarshal` tolerates around the one value -/
+def jsonSpaceOnly (bs : Bytes) : Bool := bs.all isJsonSpace
 
 /-- a hostile encrypted archive whose fragment bytes do not match the manifest (whatever spelling the manifest
 uses for the fragment's path) must not be accepted, let alone promoted; otherwise the usual unpack rules -/
